@@ -67,3 +67,83 @@ func H_C11_server_abandon() {
 		vfReach("checked")
 	})
 }
+
+// zzLateFailRW: the first stream-open envelope written through it goes out, but its Write reports
+// the caller's context error once that context ends (a write deadline that fires after the bytes
+// left): allowed transport behaviour.
+type zzLateFailRW struct {
+	rw   RpcReadWriter
+	mu   vfMutex
+	used bool
+	sent chan struct{}
+}
+
+func (c *zzLateFailRW) Read(ctx context.Context) (*Rpc, error) { return c.rw.Read(ctx) }
+func (c *zzLateFailRW) Write(ctx context.Context, rpc *Rpc) error {
+	c.mu.vfLock()
+	first := !c.used && rpc.Body == nil && rpc.Reset_ == nil && rpc.Trailer == nil && rpc.Status == nil
+	if first {
+		c.used = true
+	}
+	c.mu.vfUnlock()
+	if !first {
+		return c.rw.Write(ctx, rpc)
+	}
+	if err := c.rw.Write(ctx, rpc); err != nil {
+		return err
+	}
+	close(c.sent)
+	<-ctx.Done()
+	return ctx.Err()
+}
+
+// H_C11_failed_open_cc: through the real ClientConn and Server: a stream's opening write is reported
+// as failed when the caller gives up, although the server received the open and its handler has
+// started answering (m messages). NewStream returns the error, the call is released, and a unary
+// call made afterwards on the same connection completes.
+func H_C11_failed_open_cc() {
+	m := vfParam("m", 2)
+	impl := &zzImpl{}
+	impl.unary = func(ctx context.Context, in *testproto.Msg) (*testproto.Msg, error) {
+		return &testproto.Msg{Value: in.GetValue() + 1}, nil
+	}
+	sh := func(srv any, stream grpc.ServerStream) error {
+		for i := 0; i < m; i++ {
+			if err := stream.SendMsg(&testproto.Msg{Value: int32(i + 1)}); err != nil {
+				return err
+			}
+		}
+		<-stream.Context().Done()
+		return stream.Context().Err()
+	}
+	srv := zzNewServer("srv", impl, map[string]grpc.StreamHandler{"BidiStream": sh})
+	c2s := make(chan *Rpc, 4)
+	s2c := make(chan *Rpc, 4)
+	go func() {
+		vfHarnessGoroutine()
+		srv.Serve(context.Background(), NewGoatOverChannel(c2s, s2c))
+	}()
+	link := &zzLateFailRW{rw: NewGoatOverChannel(s2c, c2s), sent: make(chan struct{})}
+	cc := NewClientConn(link, "cli", "srv")
+	ctx, cancel := context.WithCancel(context.Background())
+	openDone, probeDone := false, false
+	var openErr, probeErr error
+	var probeVal int32
+	go func() {
+		_, openErr = cc.NewStream(ctx, &grpc.StreamDesc{ClientStreams: true, ServerStreams: true}, "/"+zzSvcName+"/BidiStream")
+		openDone = true
+		out := new(testproto.Msg)
+		probeErr = cc.Invoke(context.Background(), "/"+zzSvcName+"/Unary", &testproto.Msg{Value: 41}, out)
+		probeVal = out.GetValue()
+		probeDone = true
+	}()
+	go func() {
+		<-link.sent
+		cancel()
+	}()
+	vfAtQuiescence(func() {
+		vfAssert(openDone && openErr != nil, "failed-open-returns-its-error")
+		vfAssert(probeDone && probeErr == nil && probeVal == 42, "call-made-after-the-failed-open-completes")
+		vfReach("checked")
+	})
+}
